@@ -6,10 +6,10 @@ require (
 	github.com/cybergarage/go-logger v1.3.4
 	github.com/cybergarage/go-tracing v1.1.3
 	github.com/go-redis/redis v6.15.9+incompatible
+	github.com/google/uuid v1.6.0
 )
 
 require (
-	github.com/google/uuid v1.6.0 // indirect
 	github.com/onsi/ginkgo v1.16.5 // indirect
 	github.com/onsi/gomega v1.19.0 // indirect
 )
